@@ -20,7 +20,7 @@ ClassesOf(f) ==
     [] f = "sigvals"    -> {"none", "raw_ok", "gpg_ok", "gpgfp_ok", "bad_value", "bad_value_nondict", "bad_gpg_headers", "hex_as_char_list", "nonkey_name_ok_value"}
     [] f = "type"       -> {"root", "key_mgr", "unsupported", "nonstr", "missing", "uppercase"}
     [] f = "spec"       -> {"ok", "nonstr", "missing", "nondotted", "null"}
-    [] f = "deleg"      -> {"empty", "one_ok", "two_ok", "thr_gt_keys", "emptykeys", "thr_huge",
+    [] f = "deleg"      -> {"empty", "one_ok", "two_ok", "thr_gt_keys", "emptykeys", "thr_huge", "roles_unusual",
                             "not_dict", "null", "entry_not_dict", "entry_missing_thr", "entry_missing_keys", "entry_extra", "keys_not_list",
                             "key_upper", "key_short", "key_long", "key_dup", "key_nonstr", "key_ws", "key_nonascii_digits",
                             "thr_zero", "thr_neg", "thr_frac", "thr_str", "thr_null", "thr_inf", "thr_nan", "thr_list",
@@ -40,7 +40,7 @@ FieldVerdict(f, c) ==
     [] f = "sigvals"    -> IF c \in {"none", "raw_ok", "gpg_ok", "gpgfp_ok"} THEN A ELSE IF c = "nonkey_name_ok_value" THEN U ELSE R
     [] f = "type"       -> IF c \in {"root", "key_mgr"} THEN A ELSE R
     [] f = "spec"       -> IF c = "ok" THEN A ELSE IF c = "nondotted" THEN U ELSE R
-    [] f = "deleg"      -> IF c \in {"empty", "one_ok", "two_ok", "thr_gt_keys", "emptykeys", "thr_huge"} THEN A
+    [] f = "deleg"      -> IF c \in {"empty", "one_ok", "two_ok", "thr_gt_keys", "emptykeys", "thr_huge", "roles_unusual"} THEN A
                            ELSE IF c \in {"thr_bool", "thr_intfloat", "role_empty"} THEN U ELSE R
     [] f = "exp"        -> IF c = "missing" THEN R ELSE DateVerdict(c)
     [] f = "ts"         -> IF c = "absent" THEN A ELSE DateVerdict(c)
@@ -56,7 +56,7 @@ ImplField(f, c) ==
     [] f = "sigvals"    -> c \in {"none", "raw_ok", "gpg_ok", "gpgfp_ok", "nonkey_name_ok_value"} \/ MUTANT = "sigvals_unchecked"
     [] f = "type"       -> c \in {"root", "key_mgr"}
     [] f = "spec"       -> c \in {"ok", "nondotted"}
-    [] f = "deleg"      -> \/ c \in {"empty", "one_ok", "two_ok", "thr_gt_keys", "emptykeys", "thr_huge", "thr_bool", "thr_intfloat", "role_empty"}
+    [] f = "deleg"      -> \/ c \in {"empty", "one_ok", "two_ok", "thr_gt_keys", "emptykeys", "thr_huge", "roles_unusual", "thr_bool", "thr_intfloat", "role_empty"}
                            \/ (c = "thr_zero" /\ MUTANT = "thr_ge_0") \/ (c = "key_dup" /\ MUTANT = "dups_ok")
                            \/ (c = "entry_extra" /\ MUTANT = "extra_ok")
     [] f = "exp"        -> c # "missing" /\ ImplDate(c)
